@@ -24,7 +24,7 @@ RULE = ("case = buffer size + drawing program (as for C03) + a flush, either `fl
         "(5) random C03 programs; (6) chars of width 0 and 2; (7) line runs of 86..200 cells (beyond the 256-byte "
         "scratch buffer) and directly adjacent erase spans.  A third of the mock flushes run on a terminal whose erasech(MAYBE) "
         "leaves the cursor in place (flm), the other legal driver behaviour.  Non-trivial = something was sent to the terminal; "
-        "distinct = distinct (op kinds, shape of the operation log).")
+        "distinct = distinct (op kinds, shape of the operation log). Also `tp tl tc gl gc text`: the mock driver's own print of a text at every cursor column of small sentinel terminals (incl. a wide character at the last column, a NUL / control first), observation = cursor and grid.")
 ASSUMPTIONS = ["the terminal advances by the library's own width function (stated in the property); modelled after src/mockterm.c",
                "terminal at least as large as the buffer; no int overflow",
                "texts are well-formed UTF-8 over any code points 1..0x1FFFFF (width function = the library's own, property C07); pens with all ten attributes incl. RGB8 secondaries (property C19)",
